@@ -291,6 +291,68 @@ class History:
                   tok is not None} if cls != 'correct' or
                  R.has_bytes(args) else None)
 
+    def do_binary_ack_across_sibling_end(self):
+        """A client connected to two namespaces acknowledges on one of them
+        with byte strings (header frame + attachments); between the frames
+        the server disconnects the client's session on the *other* namespace.
+        The acknowledgement is still complete: the callback runs once with
+        the acknowledged values."""
+        rng, ctx, r = self.rng, self.ctx, self.r
+        if self.cfg['serializer'] != 'default':
+            return self.do_ack()
+        cands = []
+        for (T, ns), sid in sorted(self.conn.items()):
+            toks = [(aid, tok) for aid, tok in sorted(
+                self.out.get(sid, {}).items()) if tok != 'call']
+            sib = [n2 for (T2, n2) in self.conn if T2 == T and n2 != ns]
+            if toks and sib:
+                cands.append((T, ns, sid, toks, sib))
+        if not cands:
+            return self.do_ack()
+        T, ns, sid, toks, sib = rng.choice(cands)
+        aid, tok = rng.choice(toks)
+        ns2 = rng.choice(sib)
+        sid2 = self.conn[(T, ns2)]
+        args = [b'blob-%d' % tok, {'x': [b'y', tok]}]
+        text, atts = R.encode(R.ACK, ns, aid, args)
+        frames = [text] + atts
+        cut = rng.randint(1, len(frames) - 1)
+        op = ['binary_ack_across_sibling_end', T, ns, aid, ns2, cut]
+        self.ops.append(op)
+        for f in frames[:cut]:
+            res = r.step(['raw', T, f])
+            if res.get('errors') or [e for e in res['events']
+                                     if e[0] == 'callback']:
+                return self.fail('an incomplete binary ACK had an effect',
+                                 res)
+        res = r.step(['sdisc', sid2, ns2])
+        if [e for e in res['events'] if e[0] == 'callback']:
+            return self.fail('a callback was invoked by a disconnect', res)
+        self.drop_sid(self.conn.pop((T, ns2)))
+        cbs, errs = [], []
+        for f in frames[cut:]:
+            res = r.step(['raw', T, f])
+            cbs += [e for e in res['events'] if e[0] == 'callback']
+            errs += res.get('errors') or []
+        if tok in self.raising:
+            errs = [e for e in errs if e['exc'] != 'Injected']
+        ctx.count('binary_acks_across_a_sibling_namespace_end')
+        if errs:
+            return self.fail('the rest of a binary ACK that straddled the '
+                             'server-side end of the client\'s other '
+                             'namespace was not handled without error: %s'
+                             % errs[0]['exc'], res)
+        if len(cbs) != 1 or cbs[0][1] != tok or \
+                not R.deep_eq(cbs[0][2], args) or tok in self.fired:
+            return self.fail('a binary ACK on %r straddled the server-side '
+                             'disconnect of the same client\'s %r session: '
+                             'callback invocations %r, expected once with '
+                             'the acknowledged values' % (ns, ns2, cbs), res)
+        self.fired.add(tok)
+        del self.out[sid][aid]
+        self.used.setdefault(sid, set()).add(aid)
+        ctx.count('callbacks_checked')
+
     def do_dup_ack_race(self):
         """The same ACK arrives twice, the second one while the callback
         started by the first is still running (two polling POSTs in flight:
@@ -683,6 +745,8 @@ class History:
         if r < (0.215 if self.kind == 'async' else 0.204):
             # (real sleeps on the threaded server: kept rare)
             return self.do_dup_ack_race()
+        if r < 0.235:
+            return self.do_binary_ack_across_sibling_end()
         if r < 0.50:
             return self.do_emit_cb()
         if r < 0.62:
@@ -724,6 +788,7 @@ def run(ctx):
     ctx.require('call_timeouts_observed', 5)
     ctx.require('duplicate_ack_races', 5)
     ctx.require('refused_with_callback_outstanding', 5)
+    ctx.require('binary_acks_across_a_sibling_namespace_end', 5)
     ctx.require('duplicate_ack_races_2_frames', 2)
     ctx.require('acks_with_raising_callback', 5)
     for cls in ('correct', 'duplicate', 'zero', 'foreign', 'never_issued',
